@@ -33,19 +33,22 @@ def edge_sets(obs):
     pa = {(byid[a], byid[b]) for a, b in obs['parent_edges']} if 'parent_edges' in obs else ch
     return ch, pa
 
-def check_case(spec, inst, mo, res: Result):
+def check_case(spec, inst, mo, res: Result, churn_seed=None):
     """returns a Violation or None"""
-    im = impl_generate(spec, inst)
+    im = impl_generate(spec, inst, churn=None if churn_seed is None else random.Random(churn_seed))
     ref = Ref(spec, inst)
     if 'error' in im:
         if mo is not None and 'error' in mo and mo['error'] == im['error']:
             res.bump('both_error:' + im['error']); return None
         return Violation(what=f'generation fails with {im["error"]} on a well-formed language and valid model',
-                         fingerprint='C01:gen-error:' + im['error'].split(':')[0], replay={'spec': spec, 'inst': inst, 'impl': im, 'model': mo})
+                         fingerprint='C01:gen-error:' + im['error'].split(':')[0], replay={'spec': spec, 'inst': inst, 'churn_seed': churn_seed, 'impl': im, 'model': mo})
     ch, pa = edge_sets(im)
+    if ch == pa and sorted(map(tuple, im['edges'])) != sorted(map(tuple, im.get('parent_edges', im['edges']))):
+        return Violation(what='parent and child references mirror each other as sets but not with multiplicity (an edge listed twice on one side only)',
+                         fingerprint='C01:mirror-multiplicity', replay={'spec': spec, 'inst': inst, 'churn_seed': churn_seed})
     if ch != pa:
         return Violation(what='parent relation is not the converse of the child relation', fingerprint='C01:not-converse',
-                         replay={'spec': spec, 'inst': inst, 'children_only': sorted(ch - pa), 'parents_only': sorted(pa - ch)})
+                         replay={'spec': spec, 'inst': inst, 'churn_seed': churn_seed, 'children_only': sorted(ch - pa), 'parents_only': sorted(pa - ch)})
     try:
         lo, hi = ref.edges()
     except Exception as e:
@@ -53,7 +56,7 @@ def check_case(spec, inst, mo, res: Result):
     if lo is not None and not (lo <= ch <= hi):
         return Violation(what=f'edges differ from the meaning of the step expressions: missing {sorted(lo - ch)[:3]}, extra {sorted(ch - hi)[:3]}',
                          fingerprint='C01:edges-not-denotation',
-                         replay={'spec': spec, 'inst': inst, 'missing': sorted(lo - ch), 'extra': sorted(ch - hi)})
+                         replay={'spec': spec, 'inst': inst, 'churn_seed': churn_seed, 'missing': sorted(lo - ch), 'extra': sorted(ch - hi)})
     if mo is not None:
         if 'error' in mo:
             return Violation(what=f'Lean model fails ({mo["error"]}) where the implementation succeeds', fingerprint='C01:model-divergence',
@@ -113,7 +116,11 @@ def run(seed, tier, lean) -> Result:
                 res.violations.append(Violation(what='driver rejected a case: ' + model[i]['error'], fingerprint='C01:driver-error',
                                                 replay={'spec': spec, 'inst': inst}, no_failing_input=True)); continue
             mo = model[i]['model']
-        v = check_case(spec, inst, mo, res)
+        # a third of the cases: the model is first built larger, a graph is generated, the extras are removed through
+        # the API (remove_asset_from_association / remove_association / remove_asset) and only then the graph is built
+        cs = (seed * 1000003 + i) if i % 3 == 2 else None
+        if cs is not None: res.bump('churned_models')
+        v = check_case(spec, inst, mo, res, churn_seed=cs)
         ops = set()
         for e in all_exprs(spec): expr_ops(e, ops)
         for o in ops: res.bump('op:' + o)
@@ -125,10 +132,10 @@ def run(seed, tier, lean) -> Result:
         if v:
             if not v.no_failing_input:
                 def failing(s, m):
-                    r2 = Result(); x = check_case(s, m, None, r2); return x is not None and x.fingerprint == v.fingerprint
+                    r2 = Result(); x = check_case(s, m, None, r2, churn_seed=cs); return x is not None and x.fingerprint == v.fingerprint
                 try:
                     s2, m2 = shrink(spec, inst, failing)
-                    v2 = check_case(s2, m2, None, Result())
+                    v2 = check_case(s2, m2, None, Result(), churn_seed=cs)
                     if v2: v = v2
                 except Exception:
                     pass
@@ -140,6 +147,6 @@ def run(seed, tier, lean) -> Result:
 
 def replay(path):
     r = json.load(open(path))
-    v = check_case(r['spec'], r['inst'], None, Result())
+    v = check_case(r['spec'], r['inst'], None, Result(), churn_seed=r.get('churn_seed'))
     print(v.what if v else 'no violation'); print('VIOLATION reproduced' if v else 'not reproduced')
     return 1 if v else 0
